@@ -116,9 +116,12 @@ def make_cases(hists: list[dict], tier: str, seed: int) -> tuple[list[dict], int
                 forms = list(VALUE_FORMS)[1:]
                 for form in (forms if tier == "thorough" else rnd.sample(forms, 2) if rnd.random() < 0.2 else []):
                     cases.append({"id": len(cases) + 1, "text": text, "wrap": w, "ops": [dict(ops[0], **op_texts(h["steps"][0]["op"], form))]})
-            if not w and len(d0["layers"]) >= 2 and any(o["sel"] > 0 for o in ops):
+            if not w and len(d0["layers"]) >= 1 and any(o["sel"] > 0 for o in ops):
                 # the same history on the document with an own-line comment after every `in' (layer trivia)
                 cases.append({"id": len(cases) + 1, "text": render_doc(d0, in_comments=True), "wrap": w, "ops": ops})
+            if not w and (tier == "thorough" or rnd.random() < 0.25):
+                # ... and on the same document in a valid but non-canonical layout (C05 / C06 speak about all documents)
+                cases.append({"id": len(cases) + 1, "text": render_doc(d0, loose=True), "wrap": w, "ops": ops, "loose": True})
     return cases, discards
 
 
